@@ -3,14 +3,19 @@ import DdoModel.Props.C01
     # C19 — sequential anytime behaviour is monotone in the cutoff point
 
 The cutoff can only fire inside a compilation (`DDRes.cutoff`), i.e. while a popped node `N` is
-being processed; `abort_search` then leaves `best_lb` and `best_ub = N.ub` as they are.  On top of the
-coverage invariant of C01: every node left in the fringe has `ub ≤ N.ub` (`Below`: the fringe pops
-a maximum and everything pushed is capped by its parent's bound), and a node's bound is valid for its
-own completions (`Inv.ubOk`).  Hence, at whichever poll the cutoff fires, `best_lb ≤ opt ≤ best_ub`
+being processed; `abort_search` then leaves `best_lb` and `best_ub` as they are.  Since the repair of
+finding D14 (`enqueue_cutset` no longer caps the bound of a cut-set node by the bound of its parent)
+`best_ub` is the **running minimum** of the bounds of the popped nodes (`get_workload`:
+`best_ub = best_ub.min(nn.ub)`, `SeqSt.afterPop`): without the cap the bounds of the popped nodes
+themselves may rise (`Ddo.C09.Layered.Rise`).  On top of the coverage invariant of C01: the fringe
+pops a maximum, so every node left in the fringe has `ub ≤ N.ub` (`Below`), and a node's bound is
+valid for its own completions (`Inv.ubOk`); hence `opt ≤ N.ub` at every pop of a node that is not
+pruned (`bounds_at_pop`), and the minimum of bounds that were all `≥ opt` is `≥ opt` (`RepOk`,
+`repOk_pop`, `repOk_update`).  Hence, at whichever poll the cutoff fires, `best_lb ≤ opt ≤ best_ub`
 (`cutoff_bounds_restricted`, `cutoff_bounds_relaxed`), for every instance and every `k`.
-Monotonicity (C19): the incumbent never decreases (`process_lb_mono`), whatever is pushed is below
-the bound of the node in hand (`process_below`), so the bound of the next popped node — the next
-`best_ub` — is not larger (`next_pop_le`).  The parallel part of C05 is in `Props/C03.lean`. -/
+Monotonicity (C19): the incumbent never decreases (`process_lb_mono`); `best_ub` is only written at
+a pop, by a minimum (`afterPop_ub_le`), and never by `process_one_node` (`process_ub_eq`), so it
+never increases.  The parallel part of C05 is in `Props/C03.lean`. -/
 set_option linter.unusedSectionVars false
 namespace Ddo.C05
 variable {S : Type} [DecidableEq S]
@@ -49,31 +54,54 @@ theorem update_le_ub (st : SeqSt S) (N : SubP S) (lb0 : Int) (o : DDOut S)
       simp only; omega
     · exact hlbub
 
-/-- **`cutoff_bounds_restricted`**: the cutoff fires during the restricted compilation of `N` -/
-theorem cutoff_bounds_restricted (st : SeqSt S) (N : SubP S) (x : DDRes S)
+/-- the reported pair is sound: the incumbent is below the reported upper bound, and so is the optimum -/
+def RepOk (st : SeqSt S) : Prop := st.bestLb ≤ st.bestUb ∧ opt ≤ st.bestUb
+
+/-- **the running minimum stays sound at a best-first pop**: `ub0` is the bound reported before the pop (sound), `N` the
+    popped node (a maximum of the fringe, not pruned), `best_ub = min ub0 N.ub` afterwards -/
+theorem repOk_pop (st : SeqSt S) (N : SubP S) (ub0 : Int)
     (hinv : Inv Phi opt Sol (N :: st.fringe) st.bestLb st.bestSol) (hmax : Below st.fringe N)
-    (hub : st.bestUb = N.ub) (hnp : ¬ N.ub ≤ st.bestLb) :
-    let st' := (st.process false N true .cutoff x).1
-    st'.abort = true ∧ st'.bestLb ≤ opt ∧ opt ≤ st'.bestUb ∧ (∀ p, st'.bestSol = some p → Sol p st'.bestLb) := by
+    (hub : st.bestUb = min ub0 N.ub) (h0 : st.bestLb ≤ ub0 ∧ opt ≤ ub0) (hnp : ¬ N.ub ≤ st.bestLb) :
+    RepOk opt st := by
   have hb := bounds_at_pop Phi opt Sol st.fringe st.bestLb st.bestSol N hinv hmax (by omega)
+  unfold RepOk
+  rw [hub]
+  omega
+
+/-- an incumbent update keeps the reported pair sound (the new incumbent is the value of a solution, hence `≤ opt`) -/
+theorem repOk_update (st : SeqSt S) (o : DDOut S) (h : RepOk opt st) (hlb : (st.updateBest o).bestLb ≤ opt) :
+    RepOk opt (st.updateBest o) := by
+  obtain ⟨_, f2, _, _, _⟩ := updateBest_fringe st o
+  unfold RepOk at h ⊢
+  rw [f2]
+  omega
+
+/-- **`cutoff_bounds_restricted`**: the cutoff fires during the restricted compilation of `N`; `best_ub` is the running
+    minimum `min ub0 N.ub`, `ub0` = what was reported before `N` was popped -/
+theorem cutoff_bounds_restricted (st : SeqSt S) (N : SubP S) (x : DDRes S) (ub0 : Int)
+    (hinv : Inv Phi opt Sol (N :: st.fringe) st.bestLb st.bestSol) (hmax : Below st.fringe N)
+    (hub : st.bestUb = min ub0 N.ub) (h0 : st.bestLb ≤ ub0 ∧ opt ≤ ub0) (hnp : ¬ N.ub ≤ st.bestLb) :
+    let st' := (st.process false N true .cutoff x).1
+    st'.abort = true ∧ st'.bestLb ≤ opt ∧ opt ≤ st'.bestUb ∧ st'.bestLb ≤ st'.bestUb ∧
+      (∀ p, st'.bestSol = some p → Sol p st'.bestLb) := by
+  have hr := repOk_pop Phi opt Sol st N ub0 hinv hmax hub h0 hnp
   simp only [SeqSt.process, hnp, if_false, Bool.not_true, Bool.false_eq_true, SeqSt.abortSearch]
-  exact ⟨trivial, hb.1, by rw [hub]; exact hb.2, hinv.solOk⟩
+  exact ⟨trivial, hinv.lbOk, hr.2, hr.1, hinv.solOk⟩
 
 /-- **`cutoff_bounds_relaxed`**: the cutoff fires during the relaxed compilation of `N` (after the
     restricted one updated the incumbent) -/
-theorem cutoff_bounds_relaxed (st : SeqSt S) (N : SubP S) (r : DDOut S)
+theorem cutoff_bounds_relaxed (st : SeqSt S) (N : SubP S) (r : DDOut S) (ub0 : Int)
     (hinv : Inv Phi opt Sol (N :: st.fringe) st.bestLb st.bestSol) (hmax : Below st.fringe N)
     (hr : CompileOk Phi opt Sol N st.bestLb r) (hre : r.isExact = false)
-    (hub : st.bestUb = N.ub) (hnp : ¬ N.ub ≤ st.bestLb) :
+    (hub : st.bestUb = min ub0 N.ub) (h0 : st.bestLb ≤ ub0 ∧ opt ≤ ub0) (hnp : ¬ N.ub ≤ st.bestLb) :
     let st' := (st.process false N true (.ok r) .cutoff).1
     st'.abort = true ∧ st'.bestLb ≤ opt ∧ opt ≤ st'.bestUb ∧ st'.bestLb ≤ st'.bestUb ∧
       (∀ p, st'.bestSol = some p → Sol p st'.bestLb) := by
-  have hb := bounds_at_pop Phi opt Sol st.fringe st.bestLb st.bestSol N hinv hmax (by omega)
+  have hrep := repOk_pop Phi opt Sol st N ub0 hinv hmax hub h0 hnp
   obtain ⟨hlb1, hsol1⟩ := updateBest_ok Phi opt Sol st N st.bestLb r hinv.lbOk hinv.solOk hr
-  have hle := update_le_ub Phi opt Sol st N st.bestLb r (hinv.ubOk N List.mem_cons_self) hr (by omega)
-  obtain ⟨_, f2, _, _, _⟩ := updateBest_fringe st r
+  have hrep1 := repOk_update opt st r hrep hlb1
   simp only [SeqSt.process, hnp, if_false, Bool.not_true, Bool.false_eq_true, hre, SeqSt.abortSearch]
-  exact ⟨trivial, hlb1, by rw [f2, hub]; exact hb.2, by rw [f2, hub]; exact hle, hsol1⟩
+  exact ⟨trivial, hlb1, hrep1.2, hrep1.1, hsol1⟩
 
 /-- `is_exact` is reported only by a run that was not aborted: an aborted state never claims exactness -/
 theorem aborted_not_exact (st : SeqSt S) (h : st.abort = true) : st.completion.1 = false := by
@@ -86,8 +114,8 @@ end
 /-- the incumbent never decreases -/
 theorem process_lb_mono (dedup : Bool) (st : SeqSt S) (N : SubP S) (me : Bool) (r x : DDRes S) :
     st.bestLb ≤ (st.process dedup N me r x).1.bestLb := by
-  have enq : ∀ (s : SeqSt S) ub cs, (s.enqueue dedup ub cs).bestLb = s.bestLb := by
-    intro s ub cs
+  have enq : ∀ (s : SeqSt S) cs, (s.enqueue dedup cs).bestLb = s.bestLb := by
+    intro s cs
     rw [enqueue_eq_foldl]
     induction cs generalizing s with
     | nil => rfl
@@ -116,39 +144,56 @@ theorem process_lb_mono (dedup : Bool) (st : SeqSt S) (N : SubP S) (me : Bool) (
             · exact Int.le_trans (updateBest_lb_ge st r) (updateBest_lb_ge _ x)
             · rw [enq]; exact Int.le_trans (updateBest_lb_ge st r) (updateBest_lb_ge _ x)
 
-/-- whatever is in the fringe after processing `N` is below `N.ub` (plain multiset fringe) -/
-theorem process_below (st : SeqSt S) (N : SubP S) (me : Bool) (r x : DDRes S) (hmax : Below st.fringe N) :
-    Below (st.process false N me r x).1.fringe N := by
+/-- `enqueue_cutset` does not touch `best_ub` (either fringe) -/
+theorem enqueue_bestUb (dedup : Bool) (st : SeqSt S) (cs : List (SubP S)) : (st.enqueue dedup cs).bestUb = st.bestUb := by
+  rw [enqueue_eq_foldl]
+  induction cs generalizing st with
+  | nil => rfl
+  | cons c cs ih =>
+    simp only [List.foldl_cons]; rw [ih]
+    unfold enqOne; simp only
+    split
+    · split <;> rfl
+    · rfl
+
+/-- **`process_one_node` never writes `best_ub`** (whatever the answers: pruned, cache refusal, cutoff, exact, enqueue) -/
+theorem process_ub_eq (dedup : Bool) (st : SeqSt S) (N : SubP S) (me : Bool) (r x : DDRes S) :
+    (st.process dedup N me r x).1.bestUb = st.bestUb := by
   unfold SeqSt.process
   split
-  · exact hmax
+  · rfl
   · split
-    · exact hmax
+    · rfl
     · cases r with
-      | cutoff => intro c hc; simp [SeqSt.abortSearch] at hc
+      | cutoff => rfl
       | ok r =>
         simp only
-        have f1 := (updateBest_fringe st r).1
+        have f1 := (updateBest_fringe st r).2.1
         split
-        · rw [f1]; exact hmax
+        · exact f1
         · cases x with
-          | cutoff => intro c hc; simp [SeqSt.abortSearch] at hc
+          | cutoff => exact f1
           | ok x =>
             simp only
-            have f2 := (updateBest_fringe (st.updateBest r) x).1
+            have f2 := (updateBest_fringe (st.updateBest r) x).2.1
             split
-            · rw [f2, f1]; exact hmax
-            · intro c hc
-              obtain ⟨_, _, _, _, e5⟩ := enqueue_false_spec ((st.updateBest r).updateBest x) N.ub x.cutset
-              rcases (e5 c).mp hc with h | ⟨c0, _, rfl, _⟩
-              · rw [f2, f1] at h; exact hmax c h
-              · simp only; omega
+            · exact f2.trans f1
+            · rw [enqueue_bestUb]; exact f2.trans f1
 
-/-- **`next_pop_le`**: the node popped next (any element of the new fringe, in particular a maximal
-    one) has a bound not larger than the current one: `best_ub` never increases from pop to pop -/
-theorem next_pop_le (st : SeqSt S) (N M : SubP S) (me : Bool) (r x : DDRes S) (hmax : Below st.fringe N)
-    (hM : M ∈ (st.process false N me r x).1.fringe) : M.ub ≤ N.ub :=
-  process_below st N me r x hmax M hM
+/-- **`afterPop_ub_le`**: the pop writes the running minimum: `best_ub` does not increase, and is at most the bound of the
+    popped node.  (The bounds of the popped nodes themselves may increase from pop to pop since cut-set nodes are no longer
+    capped by their parent's bound — `Ddo.C09.Layered.Rise.popped_bound_increases`; the pre-fix lemmas `process_below` /
+    `next_pop_le` are false for the repaired solver and are replaced by this lemma and `process_ub_eq`.) -/
+theorem afterPop_ub_le (st : SeqSt S) (nn : SubP S) :
+    (st.afterPop nn).bestUb ≤ st.bestUb ∧ (st.afterPop nn).bestUb ≤ nn.ub ∧ (st.afterPop nn).bestUb = min st.bestUb nn.ub := by
+  unfold SeqSt.afterPop
+  split <;> exact ⟨Int.min_le_left _ _, Int.min_le_right _ _, rfl⟩
+
+/-- **`turn_ub_le`**: over one turn of the loop (pop, then `process_one_node`) the reported upper bound does not increase -/
+theorem turn_ub_le (dedup : Bool) (st : SeqSt S) (rest : List (SubP S)) (N : SubP S) (me : Bool) (r x : DDRes S) :
+    (({ st.afterPop N with fringe := rest } : SeqSt S).process dedup N me r x).1.bestUb ≤ st.bestUb := by
+  rw [process_ub_eq]
+  exact (afterPop_ub_le st N).1
 
 /-- after the pop of a maximal element `M`, the rest of the fringe is below it -/
 theorem below_after_max_pop (fr : List (SubP S)) (M : SubP S) (hmaxM : ∀ c ∈ fr, c.ub ≤ M.ub) : Below fr M := hmaxM
